@@ -1598,7 +1598,21 @@ fn run_history(ctx: &mut Ctx, views: bool) -> Verdict {
     let mut gs = GStores::default();
     let mut gm = GStores::models();
     for step in 0..n_ops {
-        let op = draw_op(ctx, &a, &p, &pool, views);
+        let mut op = draw_op(ctx, &a, &p, &pool, views);
+        // anchor some operations on what the stores hold (reference of the first, never-full
+        // implementation): the same triple in one more graph; fully constant s p o patterns
+        // of a present triple (each bound/unbound shape is served by its own code path, and
+        // the all-constant ones only matter when they hit)
+        if !graphs_mode && !dm[0].quads.is_empty() && ctx.tape.chance(1, 4) {
+            let present = dm[0].quads[ctx.tape.below(dm[0].quads.len())].clone();
+            let consts = || [MSpec::One(present.0[0].clone()), MSpec::One(present.0[1].clone()), MSpec::One(present.0[2].clone())];
+            match &mut op {
+                Op::Insert(q) => q.0 = present.0.clone(),
+                Op::PartialUnion(_, ms) | Op::Matching(ms, _) | Op::UnionMatching(ms) | Op::ViewMatching(_, ms) => *ms = consts(),
+                Op::RemoveMatching(ms, _) if ctx.tape.flag() => *ms = consts(),
+                _ => {}
+            }
+        }
         let via_ref = ctx.tape.chance(1, 4);
         ctx.ops += 1;
         ctx.sig(op.name());
